@@ -1,5 +1,6 @@
 pub mod cluster;
 pub mod gen;
+pub mod lockstep;
 pub mod settle;
 pub mod storage;
 pub mod types;
